@@ -216,6 +216,18 @@ def random_history(rng, faults, maxlen, nres=4, ncom=3):
         h["via_module"] = True
         h["allow"] = True
         h["ops"] = sanitize(ops, par, True)
+    return environment(h)
+
+
+VSTYLES = ["bool", "numpy", "int"]
+
+
+def environment(h):
+    """features of the environment that the model does not (and need not) see: the type of the truth value a
+    validation function returns, and whether the user keeps sub directories inside the cache directory"""
+    k = h["maxb"] // 100 + len(h["ops"]) + sum(len(str(o)) for o in h["ops"])
+    h["validator_returns"] = VSTYLES[k % 3]
+    h["foreign_subdirectories"] = (k // 3) % 2 == 0
     return h
 
 
@@ -227,7 +239,7 @@ def exhaustive_histories(depth, faults):
             for combo in itertools.product(range(len(al)), repeat=L):
                 ops = [al[i] for i in combo]
                 for par in ((False, True) if not faults else (False,)):
-                    yield {"maxb": mb, "par": par, "allow": True, "ops": sanitize(ops, par, True)}
+                    yield environment({"maxb": mb, "par": par, "allow": True, "ops": sanitize(ops, par, True)})
 
 
 # ------------------------------------------------------------------ comparison + oracles
